@@ -1698,6 +1698,7 @@ package go_clipper2
 //@   requires splitOp.prev != splitOp && splitOp.prev != splitOp.next && splitOp.next != splitOp && splitOp.next.next != splitOp && splitOp.next.next != splitOp.next && splitOp.next.next != splitOp.prev
 //@   assumes dom(splitOp.prev.pt, 29) && dom(splitOp.pt, 29) && dom(splitOp.next.pt, 29) && dom(splitOp.next.next.pt, 29)
 //@   ensures [splice-adds-no-duplicate-vertex] outrec.pts != nil ==> (old(splitOp.prev).next == old(splitOp.next.next) || (old(splitOp.prev).next.pt != old(splitOp.prev).pt && old(splitOp.prev).next.pt != old(splitOp.next.next).pt && old(splitOp.prev).next.next == old(splitOp.next.next)))
+//@   assert after splitOp.next.next#0 [the-split-off-part-is-a-closed-ring-of-three-nodes-in-both-directions] newOp.next == splitOp && splitOp.next == old(splitOp.next) && splitOp.next.next == newOp && newOp.prev == splitOp.next && splitOp.prev == newOp && newOutRec.pts == newOp && newOp.outrec == newOutRec && splitOp.outrec == newOutRec && splitOp.next.outrec == newOutRec
 //@   ensures [ring-closed-at-the-splice] outrec.pts != nil ==> (old(splitOp.next.next).prev == old(splitOp.prev).next || old(splitOp.next.next).prev == old(splitOp.prev))
 
 //@ func clipperBase.processHorzJoins
